@@ -855,6 +855,11 @@ class ContentElement(TTMLElement):
           StyleElement.from_xml(self, child_xml_element)
           continue
 
+        if self.time_container.is_seq() and self.implicit_end is None:
+          # a previous child of this sequential container never ends, so the
+          # remaining children never begin
+          break
+
         child_element = ContentElement.from_xml(self, child_xml_element)
 
         if child_element is not None:
